@@ -1002,8 +1002,12 @@ class SyncObj(object):
                 else:
                     idx = message['log_idx']
                     term = message['log_term']
-                    assert idx > self.__raftLastApplied
-                    self.__commandsWaitingCommit[idx].append((term, callback))
+                    if idx > self.__raftLastApplied:
+                        self.__commandsWaitingCommit[idx].append((term, callback))
+                    else:
+                        # That position was applied before the leader's answer arrived (it reached us
+                        # through another leader): whether it was our command is not known any more.
+                        callback(None, FAIL_REASON.LEADER_CHANGED)
 
         if self.__raftState == _RAFT_STATE.CANDIDATE:
             if message['type'] == 'response_vote' and message['term'] == self.__raftCurrentTerm:
